@@ -15,6 +15,8 @@ def build_route(score, route, rng_seed):
         return P.seq_from_abs(ms)
     if route == "rel":
         return P.seq_from_rel(P.abs_to_rel(ms))
+    if route == "edited":
+        return None          # built in execute(): needs the base
     if route == "late":
         # note by note, later notes first: events of one tick end up in another stored order
         return build(score, "late")
@@ -37,6 +39,23 @@ def execute(case):
     try:
         a = build_route(pair["base"], "abs", idx)
         b = build_route(pair["other"], route, idx)
+        if b is None:
+            # history: b held the base content and was compared with a (and read) before; it was then edited in place
+            # through messages_abs() into the other content. Possible when both contents have the same message
+            # structure (single-attribute perturbations); otherwise b is simply built from the other content.
+            tgt = [P.mk(m) for m in score_abs(pair["other"])]
+            b = build_route(pair["base"], "abs", idx)
+            # (comparisons last: nothing that re-sorts the object comes between them and the edit)
+            b.get_message_pairings(), b.get_interleaved_message_pairings(), a.equals(b), b.equals(a), b == a
+            objs = list(b.messages_abs())        # the real message objects, handed out by the public generator
+            k = lambda m: (m.time, -1 if m.channel is None else m.channel, m.message_type, -1 if m.note is None else m.note)
+            so, st = sorted(objs, key=k), sorted(tgt, key=k)
+            if [m.message_type for m in so] == [m.message_type for m in st]:
+                for m, t in zip(so, st):
+                    for attr in ("channel", "time", "note", "velocity", "control", "program", "numerator", "denominator", "key"):
+                        setattr(m, attr, getattr(t, attr))
+            else:
+                b = build_route(pair["other"], "abs", idx)
         line["a"], line["b"] = P.raw_abs(a), P.raw_abs(b)
         for f in FLAGS:
             kw = dict(ignore_channel=f[0], ignore_time_signature=f[1], ignore_key_signature=f[2], ignore_velocity=f[3])
@@ -47,7 +66,7 @@ def execute(case):
         # absolute-side operation (content compared through the projection as well)
         for ops in (("transpose",), ("set_channel",), ("pad",), ("cutoff",), ("transpose", "add_absolute_message"),
                     ("add_absolute_message", "transpose")):
-            x = build_route(pair["other"], route, idx)
+            x = build_route(pair["other"], route if route != "edited" else "abs", idx)
             for op in ops:
                 if op == "transpose":
                     x.transpose(1)
@@ -85,7 +104,7 @@ def run(ctx):
         pairs = ctx.generate("Gen_Equals", "Gen_Equals.cfg", env={"VERIF_TIER": ctx.tier})
         cases = []
         for p in pairs:
-            routes = ["abs", "rel", "shuffled", "late"] if p["kind"] == "none" or ctx.thorough else [("abs", "rel", "shuffled", "late")[len(cases) % 4]]
+            routes = ["abs", "rel", "shuffled", "late", "edited"] if p["kind"] == "none" or ctx.thorough else [("abs", "rel", "shuffled", "late", "edited")[len(cases) % 5]]
             for r in routes:
                 cases.append((len(cases), p, r))
     obs = pmap(execute, cases, chunk=300)
